@@ -53,11 +53,20 @@ def _same_pts(got, exp):
 
 
 def _ring(got, exp):
-    """a ring as shapely reports it: closed (first point repeated)"""
-    exp = list(exp)
-    if not (exp[0][0] == exp[-1][0] and exp[0][1] == exp[-1][1]):
-        exp = exp + [exp[0]]
-    return _same_pts(got, exp)
+    """a ring as shapely reports it: the given vertices, in order, followed only by repetitions of the first
+    vertex (GEOS closes a ring and pads it to four coordinates)"""
+    exp = [tuple(p) for p in exp]
+    got = [tuple(p) for p in got]
+    if len(got) < len(exp) or len(got) > len(exp) + 2:
+        return False
+    if not _same_pts(got[: len(exp)], exp):
+        return False
+    for p in got[len(exp):]:
+        if not (p[0] == exp[0][0] and p[1] == exp[0][1]):
+            return False
+    if not (got[-1][0] == got[0][0] and got[-1][1] == got[0][1]):
+        return False
+    return True
 
 
 def _box_ring(got, a, b, c, d):
@@ -262,7 +271,8 @@ def plan():
         tw = ("any",) if tag in ("TimeStamp", "TimeInterval") else ("degenerate", "proper")
         if (tag, variant) in (("Point", 0), ("MultiPoint", 0)):
             tw = ("degenerate",)
-        obs.append(Ob("bounds-" + nm, ob_bounds, "ieee", 300, dict(tag=tag, variant=variant), tiers, twins=tw))
+        obs.append(Ob("bounds-" + nm, ob_bounds, "ieee", 300, dict(tag=tag, variant=variant),
+                      q if (tag, variant) in QUICK_FEATURES else tiers, twins=tw))
         obs.append(Ob("features-" + nm, ob_features, "real", 300, dict(tag=tag, variant=variant),
                       q if (tag, variant) in QUICK_FEATURES else tiers, twins=("any",)))
         for pos in CORNERS:
